@@ -100,9 +100,10 @@ def checkCase (c : Case) : CaseResult := Id.run do
       | none => return { verdict := .diverge "unparsable pos" }
     | _, _, _ => return { verdict := .diverge s!"missing pos/uns/act for op {t}" }
   let sblk : Option (Array Nat) := ((c.get "sblk")[0]?).map fun l => (l.extract 1 l.size).map (fun x => nat! x)
-  -- the static model is tied on unscaled systems; equalities included: the static solver merges across them
-  -- like across inequalities (known finding C01-static-eq) and so does the model
-  let staticTie := vs.all (fun v => v.2.2 == 1)
+  -- the static model is tied on unscaled systems, and on scaled ones for satisfy() (refine's split has the known
+  -- scale defect and asserts); equalities included: the static solver merges across them like across
+  -- inequalities (known finding C01-static-eq) and so does the model
+  let staticTie := vs.all (fun v => v.2.2 == 1) || ops.all (fun o => match o with | .solve => false | _ => true)
   let scaleD : Rat := 1 + dataMax
   let tol := tolAbs * scaleD
   let scaleFn : Nat → Rat := fun i => (vs.getD i (0, 1, 1)).2.2
